@@ -18,7 +18,7 @@ pub struct CtSpec {
     pub yacckind: Option<String>,
     /// "CPCTPlus" | "None"
     pub recoverer: Option<String>,
-    /// "Private" | "Public" | "PublicCrate" | "PublicSuper"
+    /// "Private" | "Public" | "PublicCrate" | "PublicSuper" | "PublicSelf" | "PublicIn:<path>"
     pub visibility: Option<String>,
     /// 2015 | 2018 | 2021
     pub edition: Option<u32>,
@@ -81,6 +81,8 @@ fn parser_opts<'a>(mut pb: CTParserBuilder<'a, DefaultLexerTypes<u32>>, spec: &C
             "Public" => lrpar::Visibility::Public,
             "PublicCrate" => lrpar::Visibility::PublicCrate,
             "PublicSuper" => lrpar::Visibility::PublicSuper,
+            "PublicSelf" => lrpar::Visibility::PublicSelf,
+            v if v.starts_with("PublicIn:") => lrpar::Visibility::PublicIn(v["PublicIn:".len()..].to_string()),
             _ => lrpar::Visibility::Private,
         });
     }
@@ -120,6 +122,8 @@ fn lexer_opts<'a>(mut lb: CTLexerBuilder<'a, DefaultLexerTypes<u32>>, spec: &CtS
             "Public" => lrlex::Visibility::Public,
             "PublicCrate" => lrlex::Visibility::PublicCrate,
             "PublicSuper" => lrlex::Visibility::PublicSuper,
+            "PublicSelf" => lrlex::Visibility::PublicSelf,
+            v if v.starts_with("PublicIn:") => lrlex::Visibility::PublicIn(v["PublicIn:".len()..].to_string()),
             _ => lrlex::Visibility::Private,
         });
     }
